@@ -1,6 +1,7 @@
 CONSTANTS TraceFile = "trace.ndjson"
   R = 2
   N = 2
+  Find = FALSE
   Relist = TRUE
   MaxRelist = 3
 SPECIFICATION TSpec
